@@ -6,6 +6,11 @@ props = [json.loads(l) for l in open(os.path.join(root, "properties.jsonl"))]
 
 # id -> (category, text, design_ref, note, technique)
 claimed = {
+ "C17": ("exploration",
+         "Property-based test tying three computations together: for generated tables and URLs the routable method set is measured by probing the real container with every method; every 405's Allow set and the OPTIONS filter's Allow / Access-Control-Allow-Methods sets must equal it, the filter must answer OPTIONS itself and leave other methods untouched (twin container).",
+         "DESIGN.md §5 C17",
+         "Routability is observed, not modelled. Fragment per the statement: literal (nested) roots, literal and plain-variable route segments, no conditions.",
+         "property-based testing (rapid): probe-derived oracle + twin container"),
  "C01": ("exploration",
          "Property-based test against a three-valued reference model: inside every invocation of a generated route function the request is judged against that route's own declaration (method, full path template incl. regex, affix, verb, tail, Consumes, Produces, If-conditions) and every filter's view of the selected route is compared with the route that ran. Only a definite 'no' of the model alarms, so the check cannot raise an alarm inside what the statement leaves open. Tables and requests are generated to nearly admit (siblings, near-miss mutations). Sampling, not proof.",
          "DESIGN.md §3.2, §5 C01",
